@@ -2,6 +2,7 @@ package transport_controller
 
 import (
 	"context"
+	"sync"
 
 	"github.com/aperturerobotics/bifrost/link"
 	"github.com/aperturerobotics/bifrost/transport"
@@ -16,6 +17,45 @@ type transportHandler struct {
 	ctx context.Context
 	// tpt contains the transport
 	tpt *promise.Promise[transport.Transport]
+
+	// evMtx guards evQueue and evBusy
+	evMtx sync.Mutex
+	// evQueue contains link events reported by the transport, in order
+	evQueue []func(broadcast func(), getWaitCh func() <-chan struct{})
+	// evBusy indicates a drain of evQueue is scheduled or running
+	evBusy bool
+}
+
+// applyInOrder applies a link event while holding the controller lock.
+//
+// Uses HoldLockMaybeAsync to avoid deadlocks if the transport author was not
+// careful, but keeps the events in the order the transport reported them: the
+// async path alone can apply a loss before the establish it follows.
+func (h *transportHandler) applyInOrder(cb func(broadcast func(), getWaitCh func() <-chan struct{})) {
+	h.evMtx.Lock()
+	h.evQueue = append(h.evQueue, cb)
+	if h.evBusy {
+		h.evMtx.Unlock()
+		return
+	}
+	h.evBusy = true
+	h.evMtx.Unlock()
+
+	h.c.bcast.HoldLockMaybeAsync(func(broadcast func(), getWaitCh func() <-chan struct{}) {
+		for {
+			h.evMtx.Lock()
+			if len(h.evQueue) == 0 {
+				h.evBusy = false
+				h.evMtx.Unlock()
+				return
+			}
+			next := h.evQueue[0]
+			h.evQueue[0] = nil
+			h.evQueue = h.evQueue[1:]
+			h.evMtx.Unlock()
+			next(broadcast, getWaitCh)
+		}
+	})
 }
 
 // newTransportHandler constructs the transport handler.
@@ -39,7 +79,7 @@ func (h *transportHandler) HandleLinkEstablished(lnk link.Link) {
 	}
 
 	// use MaybeAsync to avoid deadlocks if the transport author was not careful.
-	h.c.bcast.HoldLockMaybeAsync(func(broadcast func(), getWaitCh func() <-chan struct{}) {
+	h.applyInOrder(func(broadcast func(), getWaitCh func() <-chan struct{}) {
 		execCtx := h.c.execCtx
 		if execCtx == nil {
 			le.Warn("link established while transport exited, closing link")
@@ -86,7 +126,7 @@ func (h *transportHandler) HandleLinkEstablished(lnk link.Link) {
 
 // HandleLinkLost is called when a link is lost.
 func (h *transportHandler) HandleLinkLost(lnk link.Link) {
-	h.c.bcast.HoldLockMaybeAsync(func(broadcast func(), getWaitCh func() <-chan struct{}) {
+	h.applyInOrder(func(broadcast func(), getWaitCh func() <-chan struct{}) {
 		// fast path: clear by uuid
 		luuid := lnk.GetUUID()
 		// only if the stored link is the lost link itself: a newer link with
